@@ -117,9 +117,16 @@
                 (case (car x)
                   ((only)
                    (map (lambda (imp)
-                          (if (or (boolean? imp-ids) (memq imp imp-ids))
-                              imp
-                              (error "importing unknown binding" imp imp-ids)))
+                          ;; keep the (to . from) pair of an identifier that
+                          ;; was renamed below, looked up by its external name
+                          (let ((ids (if (boolean? imp-ids)
+                                         (list imp)
+                                         (id-filter (lambda (i) (eq? i imp))
+                                                    imp-ids))))
+                            (if (pair? ids)
+                                (car ids)
+                                (error "importing unknown binding"
+                                       imp imp-ids))))
                         (cddr x)))
                   ((except)
                    (id-filter (lambda (i) (not (memq i (cddr x)))) imp-ids))
